@@ -542,6 +542,9 @@ func vc01JSONTarget(q dns.Question, cd, do, mnemonic, wireCT bool) string {
 	return dnsserver.PathJSON + "?" + v.Encode()
 }
 
+// vc01Inconclusive is set once a case ended in an environmental failure.
+var vc01Inconclusive bool
+
 // vc01Attempt runs f, and once more if it failed for environmental reasons.
 func vc01Attempt(f func() (ref.Result, error)) (r ref.Result, err error) {
 	r, err = f()
@@ -559,9 +562,15 @@ func vc01SocketCase(t *rapid.T, st *vstat.Stats, n *vc01Net, in ref.Input) {
 	classes := append(c.Classes(), "gen-"+strings.SplitN(in.Gen, ":", 2)[0])
 	fulls := map[string]string{}
 	order := []string{}
+	if vc01Inconclusive {
+		// An earlier case hit a time-out: do not multiply it while rapid shrinks.
+		t.FailNow()
+	}
+
 	fail := func(tr string, err error) {
 		var te *vc01Timeout
 		if errors.As(err, &te) {
+			vc01Inconclusive = true
 			fmt.Printf("VERIF-INCONCLUSIVE: %s: %v (input %s %s)\n", tr, err, in.Gen, ref.Hex(wire))
 			t.FailNow()
 		}
@@ -593,7 +602,7 @@ func vc01SocketCase(t *rapid.T, st *vstat.Stats, n *vc01Net, in ref.Input) {
 
 	// foreignOnly applies the weakest check where the input is outside the
 	// transport's must-answer domain.
-	foreignOnly := func(tr string, r ref.Result, err error) {
+	foreignOnly := func(tr string, seen *ref.Case, r ref.Result, err error) {
 		if err != nil {
 			var te *vc01Timeout
 			if errors.As(err, &te) {
@@ -610,7 +619,7 @@ func vc01SocketCase(t *rapid.T, st *vstat.Stats, n *vc01Net, in ref.Input) {
 				fail(tr, fmt.Errorf("the response does not decode: %w", uerr))
 			}
 
-			if ferr := ref.CheckForeign(c, got); ferr != nil {
+			if ferr := ref.CheckForeign(seen, got); ferr != nil {
 				fail(tr, ferr)
 			}
 		}
@@ -631,7 +640,8 @@ func vc01SocketCase(t *rapid.T, st *vstat.Stats, n *vc01Net, in ref.Input) {
 	} else {
 		classes = append(classes, "udp-oversize-query")
 		r, err := vc01Datagram(n.udpAddr, wire, false, vc01Identity, vc01Identity)
-		foreignOnly("udp", r, err)
+		// The server only ever sees the first 512 octets of the datagram.
+		foreignOnly("udp", ref.Classify(wire[:dns.MinMsgSize]), r, err)
 	}
 
 	r, err := vc01Attempt(func() (ref.Result, error) { return n.tcp(n.tcpAddr, wire, vc01Identity) })
@@ -701,7 +711,7 @@ func vc01SocketCase(t *rapid.T, st *vstat.Stats, n *vc01Net, in ref.Input) {
 	} else {
 		classes = append(classes, "dnscrypt-udp-oversize-query")
 		r, err = vc01Datagram(n.crypt.ServerAddr, wire, false, n.cryptEnc, n.cryptDec)
-		foreignOnly("dnscrypt-udp", r, err)
+		foreignOnly("dnscrypt-udp", c, r, err)
 	}
 
 	r, err = vc01Attempt(func() (ref.Result, error) {
